@@ -205,3 +205,40 @@ func TestRolloutFn(t *testing.T) {
 	os.WriteFile(filepath.Join(out, "summary.json"), b, 0o644)
 	os.RemoveAll(scratch)
 }
+
+// TestReqSuite: request-level suites (VERIF_SUITE = forward | buffer | faults | accesslog).
+func TestReqSuite(t *testing.T) {
+	out := os.Getenv("VERIF_OUT")
+	if out == "" {
+		t.Skip("VERIF_OUT not set")
+	}
+	scratch := filepath.Join(out, "scratch")
+	os.MkdirAll(scratch, 0o755)
+	f, err := os.Create(filepath.Join(out, "trace.ndjson"))
+	if err != nil {
+		t.Fatal(err)
+	}
+	defer f.Close()
+	rec := NewRecorder(f)
+	start := time.Now()
+	suite := envStr("VERIF_SUITE", "forward")
+	sum := runSummary{Family: suite}
+	seed, n := int64(envInt("VERIF_SEED", 1)), envInt("VERIF_N", 300)
+	switch suite {
+	case "forward":
+		RunForward(t, 0, seed, n, rec, scratch)
+	case "buffer":
+		RunBuffer(t, 0, seed, n, rec, scratch)
+	case "faults":
+		RunFaults(t, 0, seed, n, rec, scratch)
+	default:
+		t.Fatalf("unknown suite %q", suite)
+	}
+	sum.Scenarios = 1
+	rec.Flush()
+	sum.Events = rec.Counts
+	sum.WallS = time.Since(start).Seconds()
+	b, _ := json.MarshalIndent(&sum, "", " ")
+	os.WriteFile(filepath.Join(out, "summary.json"), b, 0o644)
+	os.RemoveAll(scratch)
+}
